@@ -384,3 +384,485 @@ Example C06_ex_zlib_fixed : zlib_stream ex2_z (repeat 0 1000) /\ nonuncompress e
 Proof. split; [exact ex2_conforms|exact ex2_decoded]. Qed.
 Example C06_ex_zlib_dynamic : zlib_stream ex4_z ex4_d /\ nonuncompress ex4_z 300 300 false = Ok ex4_d.
 Proof. split; [exact ex4_conforms|exact ex4_decoded]. Qed.
+
+(* ================================================================================================================== *)
+(* Encoder side tied by T1 (Gen/EncodeC06.v: slices of libb64/cencode.c, sc_io_noncompress, sc_io_encode_zlib in both
+   configurations, sc_vtk_write_binary, sc_vtk_write_compressed), histories on one encoder state, statelessness of the decoder
+   with the census of sc_puff.c's static objects (Gen/StaticC06.v).  A `char` is signed in the slices (s8); mem_widx = the ADDRESS
+   of a store (pointers are integers); the outputs of a slice are listed in the comment above its definition in Gen/EncodeC06.v. *)
+From Coq Require Import String.
+From ScV Require Import Gen.EncodeC06 Gen.StaticC06 C06.EncodeGen C06.EncodeHistories C06.PuffProcess.
+
+(* base64_init_encodestate: step_A, result 0 (the enumerators are parameters: any three values) *)
+Theorem C06_gen_b64e_init :
+  forall sA sB sC : Z, b64e_init sA = (u32 (step_code sA sB sC (e_step e_init)), e_result e_init, 0, 0).
+Proof. exact gen_b64e_init. Qed.
+Print Assumptions C06_gen_b64e_init.
+
+(* base64_encode_block: the carry is loaded from the state, the pointers start at the arguments, the switch dispatches on the saved step *)
+Theorem C06_gen_b64e_enter :
+  forall (sA sB sC : Z) (st : estate) (pin n co : Z),
+  b64e_enter (e_result st) = (e_result st, 0) /\
+  b64e_plainchar_init pin = pin /\
+  b64e_plaintextend_init pin n = pin + n /\
+  b64e_codechar_init co = co /\
+  b64e_switch_on (step_code sA sB sC (e_step st)) = step_code sA sB sC (e_step st) /\
+  b64e_end_switch_on (step_code sA sB sC (e_step st)) = step_code sA sB sC (e_step st).
+Proof. exact gen_b64e_enter. Qed.
+Print Assumptions C06_gen_b64e_enter.
+
+(* end of the input in front of any of the three labels: carry and step are SAVED, the number of characters is returned *)
+Theorem C06_gen_b64e_input_end :
+  forall (sA sB sC : Z) (pt_at : Z -> Z) (p r cc co frag sr ss sc : Z),
+  b64e_step_A pt_at p p r sA cc co frag sr ss = (u64 (s64 (cc - co)), 1, 0, 0, r, u32 sA, frag, p, r, cc, 1) /\
+  b64e_step_B pt_at p p r sB cc co frag sr ss = (u64 (s64 (cc - co)), 1, 0, 0, r, u32 sB, frag, p, r, cc, 1) /\
+  b64e_step_C pt_at p p r sC cc co frag sc sr ss = (u64 (s64 (cc - co)), 1, 0, 0, 0, 0, r, u32 sC, frag, p, r, cc, sc, 1).
+Proof. exact gen_b64e_input_end. Qed.
+Print Assumptions C06_gen_b64e_input_end.
+
+(* one plaintext byte in step A: the generated statements store the model's character, keep the model's carry and fall into step B *)
+Theorem C06_gen_b64e_step_A :
+  forall (sA : Z) (pt_at : Z -> Z) (p pend r cc co frag sr ss x : Z),
+  byte x ->
+  pt_at p = s8 x ->
+  p <> pend ->
+  b64e_step_A pt_at p pend r sA cc co frag sr ss =
+  (let
+   '(st', out) := enc_byte {| e_step := StepA; e_result := r |} x in
+    (0, 0, cc, s8 (nth 0 out 0), sr, ss, s8 x, p + 1, e_result st', cc + Z.of_nat (Datatypes.length out), 0)) /\
+  e_step (fst (enc_byte {| e_step := StepA; e_result := r |} x)) = StepB.
+Proof. exact gen_b64e_step_A. Qed.
+Print Assumptions C06_gen_b64e_step_A.
+
+(* one plaintext byte in step B (a group is open: the carry of the previous byte enters the character) *)
+Theorem C06_gen_b64e_step_B :
+  forall (sB : Z) (pt_at : Z -> Z) (p pend r cc co frag sr ss x : Z),
+  byte x ->
+  0 <= r < 64 ->
+  pt_at p = s8 x ->
+  p <> pend ->
+  b64e_step_B pt_at p pend r sB cc co frag sr ss =
+  (let
+   '(st', out) := enc_byte {| e_step := StepB; e_result := r |} x in
+    (0, 0, cc, s8 (nth 0 out 0), sr, ss, s8 x, p + 1, e_result st', cc + Z.of_nat (Datatypes.length out), 0)) /\
+  e_step (fst (enc_byte {| e_step := StepB; e_result := r |} x)) = StepC.
+Proof. exact gen_b64e_step_B. Qed.
+Print Assumptions C06_gen_b64e_step_B.
+
+(* one plaintext byte in step C: two characters, stepcount incremented (no line break: SC_BASE64_WRAP undefined), back to step A *)
+Theorem C06_gen_b64e_step_C :
+  forall (sC : Z) (pt_at : Z -> Z) (p pend r cc co frag sc sr ss x : Z),
+  byte x ->
+  0 <= r < 64 ->
+  pt_at p = s8 x ->
+  p <> pend ->
+  b64e_step_C pt_at p pend r sC cc co frag sc sr ss =
+  (let
+   '(st', out) := enc_byte {| e_step := StepC; e_result := r |} x in
+    (0, 0, cc, s8 (nth 0 out 0), cc + 1, s8 (nth 1 out 0), sr, ss, s8 x, p + 1, e_result st', cc + Z.of_nat (Datatypes.length out),
+     s32 (sc + 1), 0)) /\ e_step (fst (enc_byte {| e_step := StepC; e_result := r |} x)) = StepA.
+Proof. exact gen_b64e_step_C. Qed.
+Print Assumptions C06_gen_b64e_step_C.
+
+(* base64_encode_blockend: the three cases write the model's enc_end (carry character and '=' padding), no newline *)
+Theorem C06_gen_b64e_end :
+  forall cc co r : Z,
+  0 <= r < 64 ->
+  (let out := enc_end {| e_step := StepB; e_result := r |} in
+   b64e_end_step_B cc r = (cc, s8 (nth 0 out 0), cc + 1, nth 1 out 0, cc + 1 + 1, nth 2 out 0, cc + 1 + 1 + 1, 0) /\
+   Datatypes.length out = 3%nat) /\
+  (let out := enc_end {| e_step := StepC; e_result := r |} in
+   b64e_end_step_C cc r = (cc, s8 (nth 0 out 0), cc + 1, nth 1 out 0, cc + 1 + 1, 0) /\ Datatypes.length out = 2%nat) /\
+  (b64e_end_step_A = 0 /\ enc_end {| e_step := StepA; e_result := r |} = []) /\
+  b64e_end_return cc co = (u64 (s64 (cc - co)), 1, 1) /\ b64e_unreachable_return cc co = (u64 (s64 (cc - co)), 1, 1).
+Proof. exact gen_b64e_end. Qed.
+Print Assumptions C06_gen_b64e_end.
+
+(* the carry `result` the encoder keeps between two bytes is a 6-bit value (so the char arithmetic of the slices never sees a negative char) *)
+Theorem C06_gen_b64e_carry :
+  forall (st : estate) (x : Z), byte x -> 0 <= e_result (fst (enc_byte st x)) < 64.
+Proof. exact enc_byte_carry. Qed.
+Print Assumptions C06_gen_b64e_carry.
+
+(* sc_io_adler32_init stores 1 *)
+Theorem C06_gen_adler32_init :
+  adler32_init = (adler_init, 0).
+Proof. exact gen_adler32_init. Qed.
+Print Assumptions C06_gen_adler32_init.
+
+(* sc_io_noncompress: the two zlib header bytes 78 01 of the model, dest moves by 2 *)
+Theorem C06_gen_nonc_header :
+  forall dest dsz : Z,
+  nonc_header dest dsz =
+  (u64 (dest + 0), s8 (nth 0 (firstn 2 (noncompress [])) 0), u64 (dest + 1), s8 (nth 1 (firstn 2 (noncompress [])) 0), 
+   dest + 2, u64 (dsz - 2), 0).
+Proof. exact gen_nonc_header. Qed.
+Print Assumptions C06_gen_nonc_header.
+
+(* sc_io_noncompress, one iteration of the do loop = the model's noncompress_block: BFINAL, LEN, NLEN bytes at dest..dest+4, memcpy of bsize bytes behind them, checksum over exactly these bytes, pointers advanced, loop continues iff bytes remain *)
+Theorem C06_gen_nonc_block :
+  forall (l : list Z) (n adler dest dsz src b0 : Z),
+  0 <= n < M64 ->
+  let
+  '(o, l', n', a') := noncompress_block l n adler in
+   let bs := if negb (NONCOMP_BLOCK <? n) then u16 n else NONCOMP_BLOCK in
+   nonc_block n b0 dest dsz src adler =
+   (1, dest + 5, src, bs, 1, src, bs, u64 (dest + 0), s8 (nth 0 o 0), u64 (dest + 1), s8 (nth 1 o 0), u64 (dest + 2), 
+    s8 (nth 2 o 0), u64 (dest + 3), s8 (nth 3 o 0), u64 (dest + 4), s8 (nth 4 o 0), bs, u16 (Z.lnot bs), dest + 5 + bs,
+    u64 (u64 (dsz - 5) - bs), adler, src + bs, n', if 0 <? n' then 0 else 1) /\
+   o = firstn 5 o ++ firstn (Z.to_nat bs) l /\
+   l' = skipn (Z.to_nat bs) l /\ a' = adler_update adler (firstn (Z.to_nat bs) l) /\ 0 <= bs <= n /\ n' = n - bs.
+Proof. exact gen_nonc_block. Qed.
+Print Assumptions C06_gen_nonc_block.
+
+(* sc_io_noncompress: the four trailing bytes are the model's big-endian be4 of the checksum *)
+Theorem C06_gen_nonc_trailer :
+  forall dest adler : Z,
+  0 <= adler < M32 ->
+  nonc_trailer dest adler =
+  (u64 (dest + 0), s8 (nth 0 (be4 adler) 0), u64 (dest + 1), s8 (nth 1 (be4 adler) 0), u64 (dest + 2), s8 (nth 2 (be4 adler) 0), 
+   u64 (dest + 3), s8 (nth 3 (be4 adler) 0), 0).
+Proof. exact gen_nonc_trailer. Qed.
+Print Assumptions C06_gen_nonc_trailer.
+
+(* sc_io_encode = sc_io_encode_zlib (data, out, level, break byte) with legal arguments (level -1..9, a byte) *)
+Theorem C06_gen_enc_defaults :
+  -1 <= enc_default_level <= 9 /\ 0 <= enc_default_break < 256.
+Proof. exact gen_enc_defaults. Qed.
+Print Assumptions C06_gen_enc_defaults.
+
+(* sc_io_encode_zlib, size loop: iteration i stores byte i of the model's info_header (big endian) *)
+Theorem C06_gen_enc_size_step :
+  forall i n : Z, 0 <= i < 8 -> 0 <= n < M64 -> enc_size_step i n = (i, nth (Z.to_nat i) (info_header n) 0, i + 1, 0).
+Proof. exact gen_enc_size_step. Qed.
+Print Assumptions C06_gen_enc_size_step.
+
+(* the size loop runs for i = 0..7; the header has 9 bytes *)
+Theorem C06_gen_enc_size_loop_end :
+  forall n : Z, enc_size_init = (0, 0) /\ enc_size_step 8 n = (0, 0, 8, 1) /\ len (info_header n) = 9.
+Proof. exact gen_enc_size_loop_end. Qed.
+Print Assumptions C06_gen_enc_size_loop_end.
+
+(* input_size = elem_count * elem_size *)
+Theorem C06_gen_enc_input_size :
+  forall out cnt esz : Z, enc_input_size out cnt esz = (u64 (cnt * esz), 0).
+Proof. exact gen_enc_input_size. Qed.
+Print Assumptions C06_gen_enc_input_size.
+
+(* build without zlib: 'z' at index 8; temporary array of 9 + sc_io_noncompress_bound bytes; header copied to its front; sc_io_noncompress writes behind it with the bound as capacity, from the input array, input_size bytes *)
+Theorem C06_gen_enc_compress_nz :
+  forall n ca os da : Z,
+  enc_compress_nz n ca os da =
+  (1, 1, u64 (len (info_header n) + sc_io_noncompress_bound n), 1, ca, os, len (info_header n), 1, ca + len (info_header n),
+   sc_io_noncompress_bound n, da, n, 8, nth 8 (info_header n) 0, sc_io_noncompress_bound n, 0).
+Proof. exact gen_enc_compress_nz. Qed.
+Print Assumptions C06_gen_enc_compress_nz.
+
+(* build with zlib: compressBound (input_size); compress2 into the same place with the caller's level; zlen = the length compress2 leaves *)
+Theorem C06_gen_enc_compress_z :
+  forall n cb ca os da lvl zret zlen : Z,
+  enc_compress_z n cb ca os da lvl zret zlen =
+  (1, n, 1, 1, u64 (len (info_header n) + cb), 1, ca, os, len (info_header n), 1, ca + len (info_header n), da, n, lvl, 8,
+   nth 8 (info_header n) 0, zlen, cb, zret, 0).
+Proof. exact gen_enc_compress_z. Qed.
+Print Assumptions C06_gen_enc_compress_z.
+
+(* payload = 9 + compressed length; line count and text size by the generated formulas the model uses; the output array (the input array itself for out == NULL) is resized to the text size; NUL at its start *)
+Theorem C06_gen_enc_prepare :
+  forall out data clen ca oa : Z,
+  let plen := u64 (9 + clen) in
+  enc_prepare out data clen ca oa =
+  (1, if out =? 0 then data else out, sc_encoded_size plen, 1, u64 (oa + 0), 0, if out =? 0 then data else out, plen, 
+   enc_base64_lines plen, sc_encoded_size plen, ca, plen, oa, 0).
+Proof. exact gen_enc_prepare. Qed.
+Print Assumptions C06_gen_enc_prepare.
+
+(* one iteration of the line loop: same last-line test as the model, same byte count handed to the encoder, 57 bytes / 78 characters forward, break byte and newline behind the 76 characters resp. behind blockend on the last line, NUL behind them *)
+Theorem C06_gen_enc_line_step :
+  forall zlin lines opos ipos irem lout0 bo ret lb retend : Z,
+  zlin < lines ->
+  enc_line_step zlin lines opos ipos irem lout0 bo ret lb retend =
+  (if zlin <? u64 (lines - 1)
+   then
+    (1, ipos, enc_lein irem, bo, 1, opos, bo, 76, 0, 0, 0, 0, 0, 0, 0, 0, 0, 0, u64 (opos + 76), s8 lb, u64 (opos + 77), 10, 
+     u64 (opos + 78), 0, opos + 78, ipos + 57, u64 (irem - 57), ret, u64 (zlin + 1), 0)
+   else
+    (1, ipos, enc_lein irem, bo, 0, 0, 0, 0, 1, opos, bo, ret, 1, bo, 1, opos + ret, bo, retend, u64 (opos + ret + retend + 0), 
+     s8 lb, u64 (opos + ret + retend + 1), 10, u64 (opos + ret + retend + 2), 0, 0, 0, 0, retend, u64 (zlin + 1), 0)).
+Proof. exact gen_enc_line_step. Qed.
+Print Assumptions C06_gen_enc_line_step.
+
+(* the line loop starts at 0 and ends at base64_lines; then the temporary array is freed *)
+Theorem C06_gen_enc_line_loop :
+  forall zlin lines opos ipos irem lout0 bo ret lb retend : Z,
+  lines <= zlin ->
+  enc_line_init = (0, 0) /\
+  enc_line_step zlin lines opos ipos irem lout0 bo ret lb retend =
+  (0, 0, 0, 0, 0, 0, 0, 0, 0, 0, 0, 0, 0, 0, 0, 0, 0, 0, 0, 0, 0, 0, 0, 0, opos, ipos, irem, lout0, zlin, 1) /\ enc_finish = (1, 0).
+Proof. exact gen_enc_line_loop. Qed.
+Print Assumptions C06_gen_enc_line_loop.
+
+(* one unfolding of the model's line loop: the shape C06_gen_enc_line_step is compared with *)
+Theorem C06_gen_enc_lines_shape :
+  forall (k : nat) (zlin lines : Z) (ipos : list Z) (irem : Z) (st : estate) (lb : Z),
+  enc_lines (S k) zlin lines ipos irem st lb =
+  (let
+   '(st1, code) := enc_block st (firstn (Z.to_nat (enc_lein irem)) ipos) in
+    if zlin <? u64 (lines - 1)
+    then code ++ [lb; 10] ++ enc_lines k (zlin + 1) lines (skipn 57 ipos) (u64 (irem - 57)) st1 lb
+    else code ++ enc_end st1 ++ [lb; 10; 0]).
+Proof. exact enc_lines_unfold. Qed.
+Print Assumptions C06_gen_enc_lines_shape.
+
+(* sc_vtk_write_binary: chunks of 32768, buffer of 65537 characters, the encoder first reads the 4 bytes of the 32-bit length word *)
+Theorem C06_gen_vtkb_header :
+  forall n pkg mret ahdr eret file : Z,
+  vtkb_header n pkg mret ahdr eret file =
+  (1, pkg, 65537, 1, 1, ahdr, len (le4 (u32 n)), mret, 1, mret, 1, eret, file, eret, 0, 32768, u32 n, 65537, mret, u32 n, eret, 0, n, 0).
+Proof. exact gen_vtkb_header. Qed.
+Print Assumptions C06_gen_vtkb_header.
+
+(* one iteration of the chunk loop: the model's chunk length, chunk k starts at numeric_data + k * 32768, the SAME encoder state *)
+Theorem C06_gen_vtkb_chunk_step :
+  forall remaining w0 bl0 chunks data bd eret file : Z,
+  0 < remaining < M64 ->
+  vtkb_chunk_step remaining w0 bl0 chunks 32768 data bd eret file =
+  (let writenow := if remaining <? 32768 then remaining else 32768 in
+   (1, data + u64 (chunks * 32768), writenow, bd, 1, bd, 1, eret, file, eret, 0, writenow, eret, remaining - writenow, u64 (chunks + 1), 0)).
+Proof. exact gen_vtkb_chunk_step. Qed.
+Print Assumptions C06_gen_vtkb_chunk_step.
+
+(* the chunk loop ends when nothing remains *)
+Theorem C06_gen_vtkb_chunk_loop_end :
+  forall w0 bl0 chunks cs data bd eret file : Z,
+  vtkb_chunk_step 0 w0 bl0 chunks cs data bd eret file = (0, 0, 0, 0, 0, 0, 0, 0, 0, 0, 0, w0, bl0, 0, chunks, 1).
+Proof. exact gen_vtkb_chunk_loop_end. Qed.
+Print Assumptions C06_gen_vtkb_chunk_loop_end.
+
+(* one unfolding of the model's chunk loop: the shape C06_gen_vtkb_chunk_step is compared with *)
+Theorem C06_gen_vtkb_chunks_shape :
+  forall (f : nat) (data : list Z) (remaining : Z) (st : estate),
+  vtk_chunks (S f) data remaining st =
+  (if 0 <? remaining
+   then
+    let writenow := if remaining <? 32768 then remaining else 32768 in
+    let
+    '(st1, o1) := enc_block st (firstn (Z.to_nat writenow) data) in
+     let '(st2, o2) := vtk_chunks f (skipn (Z.to_nat writenow) data) (remaining - writenow) st1 in (st2, o1 ++ o2)
+   else (st, [])).
+Proof. exact vtk_chunks_unfold. Qed.
+Print Assumptions C06_gen_vtkb_chunks_shape.
+
+(* blockend on the same state; buffer freed; -1 iff ferror *)
+Theorem C06_gen_vtkb_finish :
+  forall bd eret file pkg fe : Z,
+  vtkb_finish bd eret file pkg fe = (1, bd, 1, bd, 1, eret, file, 1, pkg, bd, eret, 0, if z2b fe then -1 else 0, 1, eret, 1).
+Proof. exact gen_vtkb_finish. Qed.
+Print Assumptions C06_gen_vtkb_finish.
+
+(* sc_vtk_write_compressed: block arithmetic and the first three header words are the model's *)
+Theorem C06_gen_vtkc_sizes :
+  forall n pkg m1 m2 m3 : Z,
+  0 <= n < M32 ->
+  let lastsize := n mod 32768 in
+  let numregular := n / 32768 in
+  let numfull := numregular + (if 0 <? lastsize then 1 else 0) in
+  let h2 := if (0 <? lastsize) || (n =? 0) then lastsize else 32768 in
+  let hsize := 4 * (3 + numfull) in
+  let cl := 2 * (if hsize <? 32768 then 32768 else hsize) + 4 + 1 in
+  vtkc_sizes n pkg m1 m2 m3 =
+  (1, pkg, cl, 1, pkg, cl, 1, pkg, hsize, 0, u32 numfull, 1, 32768, 2, u32 h2, 32768, lastsize, numregular, numfull, 
+   3 + numfull, hsize, cl, m1, m2, m3, 0) /\ hsize = len (le4 (u32 numfull) ++ le4 32768 ++ le4 (u32 h2)) + 4 * numfull.
+Proof. exact gen_vtkc_sizes. Qed.
+Print Assumptions C06_gen_vtkc_sizes.
+
+(* the size words are cleared *)
+Theorem C06_gen_vtkc_zero :
+  forall iz he : Z, vtkc_zero_init = (3, 0) /\ vtkc_zero_step iz he = (if iz <? he then (iz, 0, u64 (iz + 1), 0) else (0, 0, iz, 1)).
+Proof. exact gen_vtkc_zero. Qed.
+Print Assumptions C06_gen_vtkc_zero.
+
+(* dummy header: fresh state, one block of header_size bytes, blockend directly behind, position remembered, state initialised again *)
+Theorem C06_gen_vtkc_dummy_header :
+  forall ch hs bd e1 e2 file ft : Z,
+  vtkc_dummy_header ch hs bd e1 e2 file ft =
+  (1, 1, ch, hs, bd, 1, bd + e1, 1, file, 1, bd, 1, u64 (e1 + e2), file, 1, u64 (e1 + e2), 0, u64 (e1 + e2), e2, ft, 0).
+Proof. exact gen_vtkc_dummy_header. Qed.
+Print Assumptions C06_gen_vtkc_dummy_header.
+
+(* one regular block: 32768 bytes from numeric_data + k * 32768 at level 9; the length compress2 leaves is header word 3 + k and the block length handed to the same encoder state *)
+Theorem C06_gen_vtkc_block_step :
+  forall tb nreg clen cin0 rv0 bl0 cl cd data zret bd eret file : Z,
+  tb < nreg ->
+  vtkc_block_init = (0, 0) /\
+  vtkc_block_step tb nreg clen cin0 rv0 bl0 cl cd data 32768 zret bd eret file =
+  (1, cd, data + u64 (tb * 32768), 32768, 9, 1, cd, clen, bd, 1, bd, 1, eret, file, u64 (3 + tb), u32 clen, eret, 0, clen, cl, zret, eret,
+   u64 (tb + 1), 0).
+Proof. exact gen_vtkc_block_step. Qed.
+Print Assumptions C06_gen_vtkc_block_step.
+
+(* the block loop ends at numregularblocks *)
+Theorem C06_gen_vtkc_block_loop_end :
+  forall tb nreg clen cin0 rv0 bl0 cl cd data bs zret bd eret file : Z,
+  nreg <= tb ->
+  vtkc_block_step tb nreg clen cin0 rv0 bl0 cl cd data bs zret bd eret file =
+  (0, 0, 0, 0, 0, 0, 0, 0, 0, 0, 0, 0, 0, 0, 0, 0, 0, 0, clen, cin0, rv0, bl0, tb, 1).
+Proof. exact gen_vtkc_block_loop_end. Qed.
+Print Assumptions C06_gen_vtkc_block_loop_end.
+
+(* the odd-sized last block iff lastsize > 0 *)
+Theorem C06_gen_vtkc_last_block :
+  forall cl cd data tb ls zret clen bd eret file : Z,
+  vtkc_has_last ls = (0 <? ls) /\
+  vtkc_last_block cl cd data tb 32768 ls zret clen bd eret file =
+  (1, cd, data + u64 (tb * 32768), ls, 9, 1, cd, clen, bd, 1, bd, 1, eret, file, u64 (3 + tb), u32 clen, eret, 0, clen, cl, zret, eret, 0).
+Proof. exact gen_vtkc_last_block. Qed.
+Print Assumptions C06_gen_vtkc_last_block.
+
+(* blockend of the data; fresh state for the real header written at the remembered position; buffers freed; -1 iff a seek failed or ferror *)
+Theorem C06_gen_vtkc_finish :
+  forall bd e0 file ft ch hs e1 e2 hp s1 s2 pkg cd fe : Z,
+  vtkc_finish bd e0 file ft ch hs e1 e2 hp s1 s2 pkg cd fe =
+  (1, bd, 1, bd, 1, e0, file, 1, file, 1, 1, ch, hs, bd, 1, bd + e1, 1, file, hp, 0, 1, bd, 1, u64 (e1 + e2), file, 1, file, ft, 0, 1, pkg, ch,
+   1, pkg, cd, 1, pkg, bd, e0, 0, u64 (e1 + e2), 0, if negb (s1 =? 0) || negb (s2 =? 0) || z2b fe then -1 else 0, 1, 
+   u64 (e1 + e2), ft, e2, s1, s2, 1).
+Proof. exact gen_vtkc_finish. Qed.
+Print Assumptions C06_gen_vtkc_finish.
+
+(* HISTORIES on one encoder state: for EVERY list of chunks (empty chunks, one-byte chunks, chunks ending inside a group) the characters of all base64_encode_block calls followed by blockend are RFC 4648 of the concatenation *)
+Theorem C06_b64_any_chunking :
+  forall chunks : list (list Z),
+  Forall bytes chunks -> (let '(st, o) := enc_blocks e_init chunks in o ++ enc_end st) = rfc4648 (List.concat chunks).
+Proof. exact b64_any_chunking. Qed.
+Print Assumptions C06_b64_any_chunking.
+
+(* every partition of the same input gives the same text and the same final state *)
+Theorem C06_b64_partition_independent :
+  forall (l : list Z) (chunks : list (list Z)),
+  bytes l ->
+  List.concat chunks = l ->
+  (let '(st, o) := enc_blocks e_init chunks in o ++ enc_end st) = rfc4648 l /\ enc_blocks e_init chunks = enc_block e_init l.
+Proof. exact b64_partition_independent. Qed.
+Print Assumptions C06_b64_partition_independent.
+
+(* after every history the step is the byte count modulo 3 and blockend would complete the RFC 4648 text: the open group survives between the calls *)
+Theorem C06_b64_history_state :
+  forall chunks : list (list Z),
+  Forall bytes chunks ->
+  let
+  '(st, o) := enc_blocks e_init chunks in
+   e_step st = match len (List.concat chunks) mod 3 with
+               | 0 => StepA
+               | 1 => StepB
+               | _ => StepC
+               end /\ o ++ enc_end st = rfc4648 (List.concat chunks) /\ 0 <= e_result st.
+Proof. exact b64_history_state. Qed.
+Print Assumptions C06_b64_history_state.
+
+(* a zero-length call anywhere in a history changes nothing (seed C06c reset the state there) *)
+Theorem C06_b64_empty_chunk :
+  forall (st : estate) (a b : list (list Z)), enc_blocks st (a ++ [] :: b) = enc_blocks st (a ++ b).
+Proof. exact b64_empty_chunk. Qed.
+Print Assumptions C06_b64_empty_chunk.
+
+(* the case of seed C06c: state in step B, a call with exactly one byte, then blockend *)
+Theorem C06_b64_one_byte_in_step_B :
+  forall a b : Z,
+  byte a ->
+  byte b ->
+  (let '(st, o) := enc_blocks e_init [[a]; [b]] in o ++ enc_end st) = rfc4648 [a; b] /\ e_step (fst (enc_blocks e_init [[a]; [b]])) = StepC.
+Proof. exact b64_one_byte_in_step_B. Qed.
+Print Assumptions C06_b64_one_byte_in_step_B.
+
+(* sc_puff with its static cache (virgin flag, fixed-code tables) refines the cache-free model in every state whose cache is empty or holds the tables a fresh call builds, and leaves such a state *)
+Theorem C06_puff_cache_invariant :
+  forall (st : pstatic) (nil : bool) (outcap destlen : Z) (src : list Z) (sourcelen : Z),
+  good st ->
+  fst (puff_st st nil outcap destlen src sourcelen) = puff nil outcap destlen src sourcelen /\
+  good (snd (puff_st st nil outcap destlen src sourcelen)).
+Proof. exact puff_st_ok. Qed.
+Print Assumptions C06_puff_cache_invariant.
+
+(* sc_puff is stateless: in every static state a process can reach by any history of sc_puff calls it returns what a fresh process returns *)
+Theorem C06_puff_stateless :
+  forall st : pstatic,
+  reachable st ->
+  forall (nil : bool) (outcap destlen : Z) (src : list Z) (sourcelen : Z),
+  fst (puff_st st nil outcap destlen src sourcelen) = puff nil outcap destlen src sourcelen.
+Proof. exact puff_stateless. Qed.
+Print Assumptions C06_puff_stateless.
+
+(* hence sc_io_nonuncompress *)
+Theorem C06_nonuncompress_stateless :
+  forall st : pstatic,
+  reachable st -> forall (src : list Z) (ds dc : Z) (dn : bool), nonuncompress_in st src ds dc dn = nonuncompress src ds dc dn.
+Proof. exact nonuncompress_stateless. Qed.
+Print Assumptions C06_nonuncompress_stateless.
+
+(* hence sc_io_decode of the build without zlib *)
+Theorem C06_decode_stateless :
+  forall st : pstatic,
+  reachable st -> forall (data : list Z) (out : outdesc) (maxsz : Z), sc_decode_in st data out maxsz = sc_decode data out maxsz.
+Proof. exact decode_stateless. Qed.
+Print Assumptions C06_decode_stateless.
+
+(* one PROCESS decoding many texts (with any other sc_puff calls in between): every result is the result of a fresh process *)
+Theorem C06_process_is_stateless :
+  forall (st : pstatic) (jobs : list job) (results : list (res (Z * list Z))),
+  reachable st -> process_run st jobs results -> results = map fresh_job jobs.
+Proof. exact process_is_stateless. Qed.
+Print Assumptions C06_process_is_stateless.
+
+(* any order: a job's result does not depend on its position in the run nor on what was decoded before *)
+Theorem C06_process_any_order :
+  forall (jobs jobs' : list job) (results results' : list (res (Z * list Z))),
+  process_run static0 jobs results ->
+  process_run static0 jobs' results' ->
+  forall (j : job) (i i' : nat),
+  nth_error jobs i = Some j ->
+  nth_error jobs' i' = Some j -> nth_error results i = Some (fresh_job j) /\ nth_error results' i' = Some (fresh_job j).
+Proof. exact process_any_order. Qed.
+Print Assumptions C06_process_any_order.
+
+(* T1: the objects with static storage duration in sc_puff.c, generated from the current source, are exactly the modelled cache: constant tables, and the state of fixed () written only under `if (virgin)` *)
+Theorem C06_gen_puff_census :
+  puff_static_census = puff_census_expected /\ census_confined puff_static_census = true.
+Proof. exact gen_puff_census. Qed.
+Print Assumptions C06_gen_puff_census.
+
+(* T1: libb64 has no mutable static state (its tables are only read) *)
+Theorem C06_gen_b64_census :
+  forallb (fun '(_, _, _, sites) => forallb (fun '(_, kind, _) => (kind =? "read")%string) sites)
+    (cencode_static_census ++ cdecode_static_census) = true.
+Proof. exact gen_b64_census. Qed.
+Print Assumptions C06_gen_b64_census.
+
+(* non-vacuity *)
+Example C06_ex_chunking : (let '(st, o) := enc_blocks e_init [[77]; []; [97]; [110; 32; 105; 115]; []] in o ++ enc_end st) = rfc4648 [77; 97; 110; 32; 105; 115]
+  /\ Forall bytes [[77]; []; [97]; [110; 32; 105; 115]; []].
+Proof. split; [reflexivity|]. repeat constructor; unfold byte; cbv; intuition discriminate. Qed.
+Example C06_ex_step_hyps : byte 200 /\ 0 <= 48 < 64 /\ (fun p => s8 200) 5 = s8 200 /\ 5 <> 6.
+Proof. repeat split; unfold byte; try (cbv; intuition discriminate). Qed.
+(* a process really changes its static state: after one fixed-codes block (03 00 = an empty deflate stream) the cache is filled *)
+Example C06_ex_static_changes : s_virgin (snd (puff_st static0 false 4 4 [3; 0] 2)) = false /\ reachable (snd (puff_st static0 false 4 4 [3; 0] 2)).
+Proof. split; [vm_compute; reflexivity|apply reach_call, reach_init]. Qed.
+Example C06_ex_process_run : forall j, process_run static0 [j; j] [run_job static0 j; run_job (snd (puff_st static0 false 4 4 [3; 0] 2)) j].
+Proof. intros j. eapply run_cons; [apply rf_call, rf_refl|]. eapply run_cons; [apply rf_refl|apply run_nil]. Qed.
+
+(* the WHOLE control flow of base64_encode_block from the generated slices: entered at the saved step, the slices run in the
+   order A -> B -> C -> A .. (the fall-through order of the labels inside `while (1)`, checked by the generator) until one
+   returns: for every input, every entry state (6-bit carry) and every memory holding the input, exactly the model's characters
+   are stored, the model's step and carry are saved and the number of characters is returned *)
+From ScV Require Import C06.EncodeRun.
+Theorem C06_gen_b64e_block_control_flow : forall sA sB sC l st pt_at p cc co out,
+  bytes l -> 0 <= e_result st < 64 ->
+  (forall i, 0 <= i < len l -> pt_at (p + i) = s8 (nth (Z.to_nat i) l 0)) ->
+  gen_block sA sB sC (S (Datatypes.length l)) (e_step st) pt_at p (p + len l) (e_result st) cc co out =
+    let '(st', o) := enc_block st l in
+    Some (u64 (s64 (cc + len o - co)), u32 (step_code sA sB sC (e_step st')), e_result st', out ++ map s8 o).
+Proof. exact gen_block_is_enc_block. Qed.
+Print Assumptions C06_gen_b64e_block_control_flow.
+Example C06_ex_block_control_flow :
+  gen_block 0 1 2 5 StepB (fun p => s8 (nth (Z.to_nat (p - 100)) [77; 97; 110; 200] 0)) 100 104 16 7 7 [] =
+  Some (5, 2, shl (Z.land 200 15) 2, map s8 (snd (enc_block (mkE StepB 16) [77; 97; 110; 200]))).
+Proof. vm_compute. reflexivity. Qed.
